@@ -14,6 +14,7 @@ package lib
 import (
 	"fmt"
 	"net"
+	"sort"
 	"sync"
 	"time"
 
@@ -30,7 +31,16 @@ type fmItem struct {
 
 type fmNode struct {
 	url, publicUrl, dc string
-	vids               []uint32
+	vids               map[uint32]struct{}
+}
+
+func (n *fmNode) sortedVids() []uint32 {
+	out := make([]uint32, 0, len(n.vids))
+	for v := range n.vids {
+		out = append(out, v)
+	}
+	sort.Slice(out, func(i, j int) bool { return out[i] < out[j] })
+	return out
 }
 
 type fmClient struct {
@@ -111,7 +121,7 @@ func (m *FakeMaster) KeepConnected(stream master_pb.Seaweed_KeepConnectedServer)
 		if len(n.vids) == 0 {
 			continue
 		}
-		msg := &master_pb.VolumeLocation{Url: n.url, PublicUrl: n.publicUrl, NewVids: append([]uint32(nil), n.vids...)}
+		msg := &master_pb.VolumeLocation{Url: n.url, PublicUrl: n.publicUrl, NewVids: n.sortedVids()}
 		if m.ReplayWithDataCenter {
 			msg.DataCenter = n.dc
 		}
@@ -208,28 +218,15 @@ func (c *fmClient) node(url string) *fmNode {
 func (c *fmClient) record(msg *master_pb.VolumeLocation) {
 	n := c.node(msg.Url)
 	if n == nil {
-		n = &fmNode{url: msg.Url}
+		n = &fmNode{url: msg.Url, vids: map[uint32]struct{}{}}
 		c.nodes = append(c.nodes, n)
 	}
 	n.publicUrl, n.dc = msg.PublicUrl, msg.DataCenter
 	for _, v := range msg.NewVids {
-		found := false
-		for _, x := range n.vids {
-			if x == v {
-				found = true
-			}
-		}
-		if !found {
-			n.vids = append(n.vids, v)
-		}
+		n.vids[v] = struct{}{}
 	}
 	for _, v := range msg.DeletedVids {
-		for i, x := range n.vids {
-			if x == v {
-				n.vids = append(n.vids[:i:i], n.vids[i+1:]...)
-				break
-			}
-		}
+		delete(n.vids, v)
 	}
 }
 
@@ -288,7 +285,11 @@ func (m *FakeMaster) CopyStateTo(name string, other *FakeMaster) {
 	m.mu.Lock()
 	var nodes []*fmNode
 	for _, n := range m.client(name).nodes {
-		nodes = append(nodes, &fmNode{url: n.url, publicUrl: n.publicUrl, dc: n.dc, vids: append([]uint32(nil), n.vids...)})
+		cp := &fmNode{url: n.url, publicUrl: n.publicUrl, dc: n.dc, vids: map[uint32]struct{}{}}
+		for v := range n.vids {
+			cp.vids[v] = struct{}{}
+		}
+		nodes = append(nodes, cp)
 	}
 	m.mu.Unlock()
 	other.mu.Lock()
